@@ -465,6 +465,29 @@ def b_fold_prefix(ex: Exec, node: ast.Call) -> SV:
     return SV(S.mk_real(term), T.REAL)
 
 
+_BYNAME = z3.Function("byname", S.SEQV, S.Val, S.Val)
+
+
+def b_named(ex: Exec, node: ast.Call) -> SV:
+    """named(S, n): the element of the sequence of records S whose `.name` is n (ghost
+    lookup).  Defined by  named(S, S[j].name) = S[j]  for every index j, which is
+    consistent whenever the names in S are pairwise distinct (a stated precondition
+    wherever this is used)."""
+    s = ex.eval(node.args[0])
+    n = ex.eval(node.args[1])
+    st = s.t if s.ty.kind == "raw" else ex.seq(s)
+    ety = (s.aux if isinstance(s.aux, T.Ty) else T.ANY) if s.ty.kind == "raw" else ex.elem_ty(s.ty)
+    j = z3.Int("j!bn")
+    nm = ex.rd("fld:name", S.un_ref(st[j]))
+    ax = z3.ForAll([j], z3.Implies(z3.And(0 <= j, j < z3.Length(st)), _BYNAME(st, nm) == st[j]))
+    seen = ex.__dict__.setdefault("_byname_axioms", set())
+    if ax.get_id() not in seen:
+        seen.add(ax.get_id())
+        ex.assume(ax)
+    ex.note_assumption("named(S, n): ghost lookup with named(S, S[j].name) = S[j] (consistent because names are pairwise distinct)")
+    return ex.typed_nopc(_BYNAME(st, n.t), ety)
+
+
 def b_setunion(ex: Exec, node: ast.Call) -> SV:
     """setunion(a, b): pointwise union of two sets (same construction as set.update)."""
     a = ex.eval(node.args[0])
@@ -515,6 +538,7 @@ _TABLE = {
     "apply": b_apply,
     "real": b_real,
     "as_type": b_as,
+    "named": b_named,
     "has_type": b_has_type,
     "take": b_take,
     "unit": b_unit,
